@@ -484,3 +484,15 @@ T('c06-twin-py-message', 'C06', [(PA, "raise ParsingException('Could not parse p
 T('c06-twin-cpp-comment', 'C06', [(CPP, "        return std::nullopt;  // negation is special.", "        return std::nullopt;  // negation is handled by ParseNegation.")])
 T('c06-twin-py-list-layout', 'C06', [(PA, "      ' in ', ' is not ', ' is ', '++?', '++', '+', '-', '*', '/', '%',\n      '^', '!'])", "      ' in ', ' is not ', ' is ',\n      '++?', '++', '+', '-', '*', '/', '%', '^', '!'])")])
 M('c13-cpp-sticky-switch', 'C13', [(CPP, '    TOO_MUCH = "fun";\n  } else {\n    TOO_MUCH = "too much";\n  }', '    TOO_MUCH = "fun";\n  }')], 'C13-R2')
+
+# ---------------------------------------------------------------- C15
+M('c15-keyword-in-text', 'C15', [(PA, "  head_distinct = Split(head, 'distinct')\n  if len(head_distinct) == 1:", "  head_distinct = Split(head, 'distinct')\n  if 'distinct' not in head:")], 'C15-R1')
+M('c15-plain-split', 'C15', [(PA, "    _, value_body = SplitInOneOrTwo(s, ':-')\n    if value_body:\n      value, body = value_body\n    else:\n      value = s\n      body = None\n    operator, expression = SplitInTwo(value, '=')\n    operator = Strip(operator)\n    parsed_expression = ParseExpression(expression)\n    parsed_body = ParseConjunction(body, allow_singleton=True) if body else None\n    return BuildTreeForCombine(parsed_expression, operator, parsed_body, s)",
+                             "    value_body = s.split(':-')\n    if len(value_body) == 2:\n      value, body = value_body\n    else:\n      value = s\n      body = None\n    operator, expression = SplitInTwo(value, '=')\n    operator = Strip(operator)\n    parsed_expression = ParseExpression(expression)\n    parsed_body = ParseConjunction(body, allow_singleton=True) if body else None\n    return BuildTreeForCombine(parsed_expression, operator, parsed_body, s)")], 'C15-R1')
+M('c15-find-keyword', 'C15', [(PA, "  if s.startswith('if ') or s.startswith('if\\n'):\n    inner = s[3:]", "  if s.startswith('if ') or s.startswith('if\\n'):\n    if s.find(' then ') < 0:\n      return None\n    inner = s[3:]")], 'C15-R1')
+M('c15-span-start', 'C15', [(PA, "    substring.start = self.start + start", "    substring.start = start")], 'C15-R2')
+M('c15-string-brackets', 'C15', [(PA, "    elif State() == '\"':\n      track_parenthesis = False\n      if c == '\\n':", "    elif State() == '\"':\n      if c == '\\n':")], 'C15-R3')
+M('c15-split-inside', 'C15', [(PA, "    if not state and s[idx:(idx + l)] == separator and (", "    if s[idx:(idx + l)] == separator and (")], 'C15-R3')
+M('c15-negative-slice-escapes', 'C15', [(PA, "  if s[-1:] == 'u':\n    s = s[:-1]", "  if s[-1:] == 'u':\n    s = s[:-1]\n  tail = s[-2:]\n  if tail == '.0':\n    return {'number': tail}")], 'C15-R2')
+T('c15-twin-startswith', 'C15', [(PA, "  if s.startswith('combine '):\n    s = s[len('combine '):]", "  if s[:8] == 'combine ':\n    s = s[8:]")])
+T('c15-twin-scanner-internal', 'C15', [(PA, "  return status == 'OK' and state == ''", "  return status == 'OK' and not state")])
